@@ -3,7 +3,7 @@ from . import frames as F
 
 PROP = 'C19'
 PREDICATE = 'C19'
-LEAN_TARGETS = ['LLTD.Props.C19']
+LEAN_TARGETS = ['LLTD.Props.C19', 'LLTD.Props.C19H']
 VARIANT = 'plain'
 RULE = ('histories of all request types on one or two interfaces with the ledger line after every frame compared to the retained state the '
         'specification predicts; floods of Probes with pairwise distinct sources and no Query (quick 2 x 3000 frames, thorough 10^5), flood/Query rounds where a Query leaves a remainder, '
